@@ -149,6 +149,12 @@ def check(spec, ctx):
         ctx.fail("match_geometries gives a different answer when called again with the same arguments", spec, again, out, kind="not_repeatable")
     ctx.case(spec, nontrivial=nontrivial, labels=[f"size={n}x{m}", "ties" if ties else "noties", "allzero" if flat and not any(flat) else "mixed"], out={"matches": [[a, b, c] for a, b, c in out]})
 
+    # omitted buffers mean the documented defaults (0.01 s, 100 Hz)
+    if n * m <= 9:
+        d1 = [(a, b, c) for a, b, c in match_geometries(src, tgt)]
+        d2 = [(a, b, c) for a, b, c in match_geometries(src, tgt, time_buffer=0.01, freq_buffer=100)]
+        if d1 != d2:
+            ctx.fail("match_geometries without buffers differs from the documented defaults (0.01, 100)", spec, d1, d2, kind="defaults")
     seen_s, seen_t = [], []
     total = 0.0
     for item in out:
